@@ -293,7 +293,6 @@ pub fn check_spheres(c: &Case, cs: &mut CaseStats) -> Result<(), String> {
     let n = pts.len();
     let scale = pts.iter().map(|p| p.abs().max_element()).fold(0., f64::max).max(c.width_v().max_element());
     let abs = 1e-11 * scale;
-    let general = c.family != "L";
     // --- Epos6 over all points: containment
     let e = hooks::epos6(&pts);
     if !finite_sphere(&e) {
@@ -308,7 +307,7 @@ pub fn check_spheres(c: &Case, cs: &mut CaseStats) -> Result<(), String> {
     // --- Welzl: containment (n <= 60) and minimality (n <= 14)
     let m = n.min(60);
     let sub = &pts[..m];
-    if general {
+    let welzl = |cs: &mut CaseStats| -> Result<(), String> {
         let wz = hooks::welzl(sub);
         if !finite_sphere(&wz) {
             return Err(format!("Welzl::bounding_sphere of {m} points is not finite: centre {:?}, radius {}", wz.center, wz.radius));
@@ -337,16 +336,30 @@ pub fn check_spheres(c: &Case, cs: &mut CaseStats) -> Result<(), String> {
                 }
             }
         }
-    } else {
-        // known finding "welzl-degenerate-support" (known_findings.txt): exact lattices contain
-        // exactly collinear triples and co-spherical / coplanar quadruples, on which Welzl's
-        // three- and four-point spheres are singular. Excluded from the verdict by construction,
-        // but still executed and counted, so the evidence says how often it really fails.
-        let wz = hooks::welzl(sub);
-        let ok = finite_sphere(&wz) && sub.iter().all(|p| p.distance(wz.center) <= wz.radius * (1. + 1e-9) + abs);
-        cs.count(if ok { "welzl_lattice_sets_fine" } else { "welzl_lattice_sets_failing_known_finding" }, 1);
-        if !ok {
-            cs.label("known-finding:welzl-degenerate-support");
+        Ok(())
+    };
+    // known finding "welzl-degenerate-support" (known_findings.txt): the solver has no
+    // perturbation / exact arithmetic / pivoting; on sets whose support can be (nearly)
+    // degenerate - exact lattices, exactly collinear triples / coplanar quadruples, pairs much
+    // closer than the extent of the set - its three- and four-point spheres are singular or ill
+    // conditioned and the result may be NaN, miss points or not be minimal. Such sets (structural
+    // predicate `c20-degenerate-support`, decided on the input alone) are still executed with the
+    // full oracle; a failure there is counted under the known finding, a failure on any other
+    // set is a violation.
+    let degenerate = crate::known::predicate("c20-degenerate-support", c);
+    match welzl(cs) {
+        Ok(()) => {
+            if degenerate {
+                cs.count("welzl_degenerate_support_sets_fine", 1);
+            }
+        }
+        Err(msg) => {
+            if degenerate && msg.starts_with("Welzl::bounding_sphere") {
+                cs.count("welzl_degenerate_support_sets_failing_known_finding", 1);
+                cs.label("known-finding:welzl-degenerate-support");
+            } else {
+                return Err(msg);
+            }
         }
     }
     // --- spheres of spheres
@@ -411,13 +424,13 @@ pub fn check(c: &Case, cs: &mut CaseStats) -> Result<(), String> {
 pub fn def() -> PropDef {
     PropDef {
         id: "C20",
-        rule: "cases: boxes with per-axis widths mantissa x 2^(e + a), e in -12..12, a in 0..6 (aspect to 2^4 quick / 2^6 thorough; the particle list is truncated so that n x 2 (box diagonal / smallest cell width)^4 stays within a fixed work budget, because the library measures search rings with the smallest cell width), anchors 0 / a few widths / 2^20 widths; n = 1..400 (quick) / 600 (thorough) particles strictly inside the half-open box (uniform, clusters of size 1e-1..1e-6, exact lattices with many distance ties, a thin slab near one wall); grid of m = 1..16 (quick) / 1..40 (thorough) cells along the widest axis for n <= 24 (1..8 / 1..12 above) or one single cell; k in {0, 1, n-1, small, any}. k-NN oracle: brute force; the list has k distinct other particles, non-decreasing distances, and the r-th distance equals the r-th smallest distance up to 8 ulp (handling of ties: equidistant particles may be exchanged). Spheres: Epos6 (all points) and Welzl (first <= 60 points, non-lattice families) contain every point to 1e-9 relative; Welzl's radius <= (1 + 1e-8) x the brute-force minimum over all spheres through 2, 3, 4 of the points that contain all points (first <= 14 points); Epos6 >= that minimum; Epos6::bounding_sphere_of_spheres (<= 40 spheres with generated radii) contains every sphere. non-trivial: grid with >= 2 cells on >= 2 axes and k >= 1; distinct by case hash; sub-labels non-cubic box, sparse grid, k = n-1, minimality with n >= 5.",
+        rule: "cases: boxes with per-axis widths mantissa x 2^(e + a), e in -12..12, a in 0..6 (aspect to 2^4 quick / 2^6 thorough; the particle list is truncated so that n x 2 (box diagonal / smallest cell width)^4 stays within a fixed work budget, because the library measures search rings with the smallest cell width), anchors 0 / a few widths / 2^20 widths; n = 1..400 (quick) / 600 (thorough) particles strictly inside the half-open box (uniform, clusters of size 1e-1..1e-6, exact lattices with many distance ties, a thin slab near one wall); grid of m = 1..16 (quick) / 1..40 (thorough) cells along the widest axis for n <= 24 (1..8 / 1..12 above) or one single cell; k in {0, 1, n-1, small, any}. k-NN oracle: brute force; the list has k distinct other particles, non-decreasing distances, and the r-th distance equals the r-th smallest distance up to 8 ulp (handling of ties: equidistant particles may be exchanged). Spheres: Epos6 (all points) and Welzl (first <= 60 points) contain every point to 1e-9 relative; Welzl's radius <= (1 + 1e-8) x the brute-force minimum over all spheres through 2, 3, 4 of the points that contain all points (first <= 14 points); Epos6 >= that minimum; Epos6::bounding_sphere_of_spheres (<= 40 spheres with generated radii) contains every sphere. non-trivial: grid with >= 2 cells on >= 2 axes and k >= 1; distinct by case hash; sub-labels non-cubic box, sparse grid, k = n-1, minimality with n >= 5.",
         strategy,
         check,
         cases: |t| t.pick(12_000, 200_000),
         profiles: &["release"],
         required: &["knn:multi-cell-grid", "knn:non-cubic-box", "knn:sparse-grid", "knn:k=n-1", "spheres:minimality-n>=5", "spheres:of-spheres-n>=5", "n=1"],
         fixed: None,
-        assumptions: &["Welzl::bounding_sphere_of_spheres is unimplemented!() by design and never called", "Welzl is only run on non-lattice families: exactly collinear / co-spherical support sets are degenerate for an exact solver without perturbation (see DESIGN.md)", "the verdict never depends on hash-map iteration order (only the returned sphere is judged)"],
+        assumptions: &["Welzl::bounding_sphere_of_spheres is unimplemented!() by design and never called", "Welzl failures on sets with (nearly) degenerate support (structural predicate c20-degenerate-support on the input: exact lattice, exactly collinear triple / coplanar quadruple, a pair closer than 1e-3 of the extent) are the known finding welzl-degenerate-support: executed with the full oracle, failures counted (welzl_degenerate_support_sets_failing_known_finding), never a verdict; on every other set a Welzl failure is a violation", "the verdict never depends on hash-map iteration order (only the returned sphere is judged)"],
     }
 }
